@@ -13,7 +13,7 @@ use crate::refmodel::chacha::RefStream;
 use digest::generic_array::GenericArray;
 
 pub struct Case {
-    pub kind: u8, // 0 chacha, 1 blake, 2 jh digest, 3 jh f8
+    pub kind: u8, // 0 chacha, 1 blake, 2 jh digest, 3 jh f8, 4 generic vector kernel
     pub seed: u64,
 }
 impl Case {
@@ -21,14 +21,152 @@ impl Case {
         format!("kind={} seed={} fb={}", self.kind, self.seed, fb)
     }
     fn algo(&self) -> &'static str {
-        ["chacha", "blake", "jh", "jh-f8"][self.kind as usize]
+        ["chacha", "blake", "jh", "jh-f8", "vector-kernel"][self.kind as usize]
     }
+}
+
+/// The machine type a forced level (or this build's own choice, level 0) stands for.
+fn machine_for(fb: u8) -> &'static str {
+    if cfg!(any(feature = "portable", miri)) {
+        return "generic";
+    }
+    match fb {
+        1 => "sse2",
+        2 => "ssse3",
+        3 => "sse41",
+        4 => "avx",
+        5 => "avx2",
+        _ => match api::build_kind() {
+            "nostd-sse2" => "sse2",
+            "nostd-ssse3" => "ssse3",
+            "nostd-sse41" => "sse41",
+            "nostd-avx" => "avx",
+            _ => "avx2",
+        },
+    }
+}
+
+/// "Vector computation" (C03): a downstream-style kernel written against the `Machine` traits --
+/// four *different* 128-bit lanes per row, rows built through every constructor (from_lanes /
+/// vec, read_le, unpack), ChaCha-like rounds with per-lane word shuffles and a transpose, results
+/// read back through to_lanes, write_le, storage and to_scalars. Must be bit-identical on every
+/// machine type; the expected value is the same kernel on the scalar lane model.
+struct Kernel<'a> {
+    inp: &'a [u8],
+    out: Vec<u8>,
+}
+impl<'a> crate::machines::MachFn for Kernel<'a> {
+    #[inline(always)]
+    fn call<M: ppv_lite86::Machine>(&mut self, _n: &'static str, m: M) {
+        use ppv_lite86::*;
+        let i = self.inp;
+        let s128 = |b: &[u8]| -> vec128_storage {
+            let w: [u32; 4] = core::array::from_fn(|k| u32::from_le_bytes([b[4 * k], b[4 * k + 1], b[4 * k + 2], b[4 * k + 3]]));
+            w.into()
+        };
+        let l = |b: &[u8]| -> M::u32x4 { m.read_le(b) };
+        let mut a: M::u32x4x4 = m.vec([l(&i[0..16]), l(&i[16..32]), l(&i[32..48]), l(&i[48..64])]);
+        let mut b: M::u32x4x4 = m.read_le(&i[64..128]);
+        let mut c: M::u32x4x4 = m.unpack(vec512_storage::new128([s128(&i[128..144]), s128(&i[144..160]), s128(&i[160..176]), s128(&i[176..192])]));
+        let mut d: M::u32x4x4 = <M::u32x4x4 as MultiLane<[M::u32x4; 4]>>::from_lanes([m.unpack(s128(&i[192..208])), m.unpack(s128(&i[208..224])), l(&i[224..240]), l(&i[240..256])]);
+        for _ in 0..3 {
+            a = a + b;
+            d = (d ^ a).rotate_each_word_right16();
+            c = c + d;
+            b = (b ^ c).rotate_each_word_right20();
+            a = a + b;
+            d = (d ^ a).rotate_each_word_right24();
+            c = c + d;
+            b = (b ^ c).rotate_each_word_right25();
+            b = b.shuffle_lane_words3012();
+            c = c.shuffle_lane_words2301();
+            d = d.shuffle_lane_words1230();
+            let t = <M::u32x4x4 as Vec4Ext<M::u32x4>>::transpose4(a, b, c, d);
+            a = t.0;
+            b = t.1;
+            c = t.2;
+            d = t.3;
+        }
+        // a narrower kernel on the 256-bit and 64-bit-word types, lanes again distinct
+        let p: M::u32x4x2 = m.vec([a.extract(1), d.extract(2)]);
+        let q: M::u64x4 = m.read_le(&i[32..64]);
+        let q = (q + q.shuffle1230()).rotate_each_word_right32() ^ q.shuffle3012();
+        let mut o = Vec::with_capacity(64 * 4 + 64);
+        for x in a.to_lanes() {
+            let mut t = [0u8; 16];
+            x.write_le(&mut t);
+            o.extend_from_slice(&t);
+        }
+        let mut t = [0u8; 64];
+        b.write_le(&mut t);
+        o.extend_from_slice(&t);
+        let st: vec512_storage = c.into();
+        for x in st.split128() {
+            let w: [u32; 4] = x.into();
+            for v in w {
+                o.extend_from_slice(&v.to_le_bytes());
+            }
+        }
+        for v in d.to_scalars() {
+            o.extend_from_slice(&v.to_le_bytes());
+        }
+        let mut t = [0u8; 32];
+        p.write_le(&mut t);
+        o.extend_from_slice(&t);
+        q.write_le(&mut t);
+        o.extend_from_slice(&t);
+        self.out = o;
+    }
+}
+
+fn kernel_model(i: &[u8]) -> Vec<u8> {
+    use crate::lanes as L;
+    let (mut a, mut b, mut c, mut d) = (i[0..64].to_vec(), i[64..128].to_vec(), i[128..192].to_vec(), i[192..256].to_vec());
+    for _ in 0..3 {
+        a = L::add(&a, &b, 32);
+        d = L::rotr(&L::xor(&d, &a), 32, 16);
+        c = L::add(&c, &d, 32);
+        b = L::rotr(&L::xor(&b, &c), 32, 20);
+        a = L::add(&a, &b, 32);
+        d = L::rotr(&L::xor(&d, &a), 32, 24);
+        c = L::add(&c, &d, 32);
+        b = L::rotr(&L::xor(&b, &c), 32, 25);
+        b = L::lane_shuffle(&b, 3012);
+        c = L::lane_shuffle(&c, 2301);
+        d = L::lane_shuffle(&d, 1230);
+        let t = L::transpose4(&a, &b, &c, &d);
+        a = t[0].clone();
+        b = t[1].clone();
+        c = t[2].clone();
+        d = t[3].clone();
+    }
+    let mut p = a[16..32].to_vec();
+    p.extend_from_slice(&d[32..48]);
+    let q = i[32..64].to_vec();
+    let q = L::xor(&L::rotr(&L::add(&q, &L::shuffle1230(&q, 64), 64), 64, 32), &L::shuffle3012(&q, 64));
+    let mut o = a;
+    o.extend(b);
+    o.extend(c);
+    o.extend(d);
+    o.extend(p);
+    o.extend(q);
+    o
 }
 
 /// (real output on backend `fb`, reference output)
 fn compute(c: &Case, fb: u8) -> (Result<Vec<u8>, String>, Vec<u8>) {
     let mut r = Rng::new(c.seed);
     match c.kind {
+        4 => {
+            let inp = r.bytes(256);
+            let exp = kernel_model(&inp);
+            let got = guarded(|| {
+                let mut k = Kernel { inp: &inp, out: Vec::new() };
+                crate::machines::run(machine_for(fb), &mut k);
+                k.out
+            });
+            (got, exp)
+        }
         0 => {
             let ty = api::CIPHERS[r.below(7) as usize];
             let (layout, dr, nlen) = api::cipher_params(ty);
@@ -155,7 +293,7 @@ pub fn run(cx: &mut Ctx) {
     let levels = api::backend_levels();
     let mut roll = vec![0u64; 6];
     for i in 0..cx.budget {
-        let c = Case { kind: (i % 4) as u8, seed: rng.u64() };
+        let c = Case { kind: (i % 5) as u8, seed: rng.u64() };
         for &fb in levels {
             exec(cx, &c, fb, &mut roll[fb as usize]);
         }
